@@ -35,7 +35,14 @@ def check(model, tier):
     validation.r20_2_inventory(ctx)
     validation.r20_3_who_may_bypass(ctx)
     expressions.r13_4_required_columns(ctx, rule="R20.4")
+    from ..rules import reqeval as _reqeval
+
+    _reqeval.r13_6_requirements(ctx, rule="R20.4e")
     commute.r04_4_set_formulas(ctx, rule="R20.5")
+    from ..rules import merge as _merge
+
+    # the engine-support check sits after simplification in _finish_apply: only the identical operation may be elided
+    _merge.r05_1_simplify_discipline(ctx, rule="R20.6")
     run.assume("no relation is mutated by a rejected call: follows from C09 (no in-place mutation anywhere)")
     from ..rules import classlevel as _classlevel
 
